@@ -30,6 +30,29 @@ RawPing(n) == IF n.role = "L" THEN BcastHeartbeat(n) ELSE n
 RawUnreachable(n, st, c, j, rt) == Step(n, st, c, Local("Unreachable", j), rt)
 RawReportSnapshot(n, st, c, j, ok, rt) == Step(n, st, c, [Local("SnapStatus", j) EXCEPT !.rej = ~ok], rt)
 
+(* runtime setters (RawNode::set_priority, set_batch_append, skip_bcast_commit, Raft::set_check_quorum,
+   set_max_committed_size_per_ready, set_max_apply_unpersisted_log_limit, adjust_max_inflight_msgs,
+   enable_group_commit, assign_commit_groups, clear_commit_group) *)
+CommitThenBcast(n, st, c) ==
+    LET mc == MaybeCommit(n, st)
+    IN IF mc[1] /\ ~mc[2].pan THEN BcastAppend(mc[2], st, c) ELSE mc[2]
+RawSetKnob(n, st, c, name, j, val) ==
+    CASE name = "batch_append" -> [n EXCEPT !.batchAppend = (val # 0)]
+      [] name = "skip_bcast_commit" -> [n EXCEPT !.skipBcastCommit = (val # 0)]
+      [] name = "max_committed_size_per_ready" -> [n EXCEPT !.maxCommittedSize = val]
+      [] name = "priority" -> [n EXCEPT !.prio = val]
+      [] name = "check_quorum" -> [n EXCEPT !.checkQuorum = (val # 0)]
+      [] name = "max_apply_unpersisted_log_limit" -> [n EXCEPT !.log.maul = val]
+      [] name = "inflight" -> IF j \in DOMAIN n.pr THEN [n EXCEPT !.pr[j].ins = RSetCap(@, val)] ELSE n
+      [] name = "group_commit" ->
+            LET n1 == [n EXCEPT !.groupCommit = (val # 0)]
+            IN IF n.role = "L" /\ val = 0 THEN CommitThenBcast(n1, st, c) ELSE n1
+      [] name = "group" ->
+            LET n1 == IF j \in DOMAIN n.pr THEN [n EXCEPT !.pr[j].cg = val] ELSE n
+            IN IF n.role = "L" /\ n.groupCommit THEN CommitThenBcast(n1, st, c) ELSE n1
+      [] name = "clear_groups" -> [n EXCEPT !.pr = [k \in DOMAIN n.pr |-> [n.pr[k] EXCEPT !.cg = 0]]]
+      [] OTHER -> n
+
 (* Raft::request_snapshot = [n, err] *)
 RawRequestSnapshot(n, st) ==
     IF n.role = "L" \/ n.lead = 0 \/ HasUSnap(n) \/ n.prs # 0 THEN [n |-> n, err |-> TRUE]
@@ -118,7 +141,7 @@ PopRecords(recs, number, acc) ==
          IN PopRecords(Tail(recs), number, a2)
 
 OnPersistReady(n, st, c, number) ==
-    LET n0 == IF number >= n.rn.uhs THEN [n EXCEPT !.rn.uhs = 0] ELSE n
+    LET n0 == IF (IF Ab("PersistMarkClearedByNumber") THEN n.rn.maxNumber ELSE number) >= n.rn.uhs THEN [n EXCEPT !.rn.uhs = 0] ELSE n
         p == PopRecords(n0.rn.records, number, <<0, 0, 0>>)
         n1 == [n0 EXCEPT !.rn.records = p[1]]
         n2 == IF p[4] # 0 THEN OnPersistSnap(n1, p[4]) ELSE n1
